@@ -36,7 +36,7 @@ Qed.
 Lemma is_synced_short l lst te : (length l < 4)%nat ->
   is_synced (mkR l lst te) = Ok (false, Some te, mkR l None te).
 Proof.
-  intro H. unfold is_synced, peek. cbn [rest terr].
+  intro H. unfold is_synced, is_synced_over, o_pk, peek. cbn [rest terr bind].
   assert ((4 <=? len l) = false) as -> by (apply N.leb_gt; unfold len; lia).
   reflexivity.
 Qed.
@@ -49,7 +49,7 @@ Proof.
   inversion HB as [|? ? _ HB1]; subst. inversion HB1 as [|? ? Hb HB2]; subst.
   inversion HB2 as [|? ? Hc HB3]; subst. inversion HB3 as [|? ? Hd _]; subst.
   unfold is_byte in *.
-  unfold is_synced, peek. cbn [rest terr].
+  unfold is_synced, is_synced_over, o_pk, peek. cbn [rest terr bind].
   assert ((4 <=? len (71 :: b :: c :: d :: t)) = true) as ->
     by (apply N.leb_le; unfold len; cbn [length]; lia).
   unfold takeN. change (N.to_nat 4) with 4%nat. cbn [firstn].
@@ -242,4 +242,20 @@ Proof.
   split; [repeat constructor|]. split.
   - split; [reflexivity|]. intros j Hj. destruct j as [|[|[|[|j]]]]; try reflexivity; lia.
   - split; [reflexivity|]. split; [discriminate|reflexivity].
+Qed.
+
+(* the unfolded result (offset, error, reader) — used by Proofs/BufioRefines.v *)
+Lemma sync_raw_found l te i : is_bytes l -> first_plausible l i ->
+  sync_raw (start l te) = Ok (N.of_nat i, None, mkR (skipn i l) None te).
+Proof.
+  intros HB Hi. unfold sync_raw, start. cbn [rest].
+  destruct (sync_loop_spec l HB (S (length l)) None 0 te ltac:(lia)) as [H _].
+  rewrite (H i Hi). reflexivity.
+Qed.
+
+Lemma sync_raw_none l te : is_bytes l -> none_plausible l ->
+  exists off r', sync_raw (start l te) = Ok (off, Some (map_err te), r').
+Proof.
+  intros HB Hn. unfold sync_raw, start. cbn [rest].
+  destruct (sync_loop_spec l HB (S (length l)) None 0 te ltac:(lia)) as [_ H]. exact (H Hn).
 Qed.
